@@ -2954,9 +2954,15 @@ fn find_chords_coords(chord_groups: &mut [ChordGroup], coord: (u8, u16), action:
         | Action::ReleaseState(_)
         | Action::OneShotIgnoreEventsTicks(_)
         | Action::Custom(_) => {}
-        Action::HoldTap(HoldTapAction { tap, hold, .. }) => {
+        Action::HoldTap(HoldTapAction {
+            tap,
+            hold,
+            timeout_action,
+            ..
+        }) => {
             find_chords_coords(chord_groups, coord, tap);
             find_chords_coords(chord_groups, coord, hold);
+            find_chords_coords(chord_groups, coord, timeout_action);
         }
         Action::OneShot(OneShot { action: ac, .. }) => {
             find_chords_coords(chord_groups, coord, ac);
@@ -3010,13 +3016,22 @@ fn fill_chords(
         | Action::ReleaseState(_)
         | Action::OneShotIgnoreEventsTicks(_)
         | Action::Custom(_) => None,
-        Action::HoldTap(&hta @ HoldTapAction { tap, hold, .. }) => {
+        Action::HoldTap(
+            &hta @ HoldTapAction {
+                tap,
+                hold,
+                timeout_action,
+                ..
+            },
+        ) => {
             let new_tap = fill_chords(chord_groups, &tap, s);
             let new_hold = fill_chords(chord_groups, &hold, s);
-            if new_tap.is_some() || new_hold.is_some() {
+            let new_timeout_action = fill_chords(chord_groups, &timeout_action, s);
+            if new_tap.is_some() || new_hold.is_some() || new_timeout_action.is_some() {
                 Some(Action::HoldTap(s.a.sref(HoldTapAction {
                     hold: new_hold.unwrap_or(hold),
                     tap: new_tap.unwrap_or(tap),
+                    timeout_action: new_timeout_action.unwrap_or(timeout_action),
                     ..hta
                 })))
             } else {
